@@ -26,8 +26,24 @@ import (
 )
 
 // sanitize keeps a random design inside the envelope of the recorded findings that
-// designgen.DefaultOptions can still draw: a primitive payload mapped to a header.
+// the random stream can still draw: a primitive payload mapped to a header, a typed response cookie.
 func sanitize(d *dg.Design) {
+	for _, s := range d.Services {
+		for _, m := range s.Methods {
+			if m.HTTP != nil && m.Result != nil && m.Result.T.Kind == "object" {
+				for ri := range m.HTTP.Responses {
+					var keep []dg.MapEntry
+					for _, e := range m.HTTP.Responses[ri].Cookies {
+						if f := fieldByName(&m.Result.T, e.Attr); f != nil && f.A.T.Kind == "prim" && f.A.T.Prim != "String" {
+							continue // stays in the response body
+						}
+						keep = append(keep, e)
+					}
+					m.HTTP.Responses[ri].Cookies = keep
+				}
+			}
+		}
+	}
 	for _, s := range d.Services {
 		for _, m := range s.Methods {
 			if m.HTTP != nil && m.Payload != nil && m.Payload.T.Kind != "object" && m.Payload.T.Kind != "user" && len(m.HTTP.Headers) > 0 {
@@ -273,6 +289,9 @@ func main() {
 			// until goa converted enum values to the element type (fix 49bc0fa); it is an ordinary feature now
 			ropts := dg.DefaultOptions()
 			ropts.UintEnums = true
+			// typed REQUEST cookies compile since the client encoder fix; sanitize() keeps typed
+			// RESPONSE cookies (recorded finding non-string-response-cookie) out of the random stream
+			ropts.NonStringCookies = true
 			d := dg.Random(dr.Fork(), ropts, i)
 			sanitize(d)
 			cases = append(cases, DCase{Stream: "random", Name: d.Name, Design: d})
